@@ -28,7 +28,7 @@ for key, gkey, file, src in (
             "forall(0, len(genotype.dna), lambda k: genotype.dna[k] == old(genotype.dna[k]))",
         },
         modifies=["random.*"],
-        props=["C06", "C09"],
+        props=["C06", "C09", "C10"],
     )
     R.contract(
         f"{key}.crossover",
@@ -49,7 +49,7 @@ for key, gkey, file, src in (
         },
         witnesses={"CUT": ("rindex", "int")},
         modifies=["random.*"],
-        props=["C06", "C09"],
+        props=["C06", "C09", "C10"],
     )
     R.contract(
         f"{key}.create_genotype",
